@@ -88,7 +88,6 @@ func (r readFromRecorder) ReadFrom(src io.Reader) (int64, error) {
 	return io.Copy(struct{ io.Writer }{r.ResponseRecorder}, src)
 }
 
-
 type chainPlan struct {
 	Cases  []chainCase `json:"cases"`
 	Random int         `json:"random"`
